@@ -4,6 +4,7 @@ import TinysetModel.Proofs.Refine
 import TinysetModel.Proofs.CfgInst
 import TinysetModel.Proofs.TotalSites
 import TinysetModel.Proofs.RemoveTotal
+import TinysetModel.Proofs.TotalOpsRun
 /-! C01 — SetU64 behaves as an exact mathematical set of u64 under every history.
 The theorems below are about the executable model instantiated at `cfg64`. -/
 namespace C01
@@ -166,6 +167,22 @@ theorem remove_returns_heap_u64 {D : Type} (g : Rng D) (fuel : Nat) {sz cap bits
     (wf : WF cfg64 (.heap sz cap bits a)) (e : Nat) (he : e < 2 ^ 64) (d : D) :
     ∃ r' b, remove cfg64 g fuel (.heap sz cap bits a) e d = .ok ((r', b), d) ∧ RemOK cfg64 (.heap sz cap bits a) e r' b :=
   remove_heap_total cfg64_ok g fuel wf e he d
+
+/-- **C01 in one statement**: for every generator `g` and state `d`, every recursion budget `fuel + 2`, and every history
+    of fewer than 2^60 `insert`/`remove`/`contains`/`len` calls with `u64` arguments on a new set, the model run RETURNS
+    (no fuel / no-room / scan / unreachable error — every call returns normally), every answer is the ideal
+    mathematical set's answer, the final state is well formed and holds exactly the ideal set's members. -/
+theorem every_history_u64 {D : Type} (g : Rng D) (fuel : Nat) (ops : List Op) (hops : ∀ op ∈ ops, op.InRange 64)
+    (hlen : ops.length < 2 ^ 60) (d : D) :
+    ∃ r' outs d', runOps cfg64 g (fuel + 2) .empty ops d = .ok ((r', outs), d') ∧ WF cfg64 r' ∧
+      outs = (specRun [] ops).2 ∧ ∀ x, x ∈ elems cfg64 r' ↔ x ∈ (specRun [] ops).1 :=
+  run_total_u64 g fuel ops hops hlen d
+
+/-- `remove` always returns (also on inline sets, which are rebuilt through `collect`) with the right answer -/
+theorem remove_returns_and_is_right_u64 {D : Type} (g : Rng D) (fuel : Nat) {r : Rp} (wf : WF cfg64 r) (e : Nat)
+    (he : e < 2 ^ 64) (d : D) :
+    ∃ r' b d', remove cfg64 g (fuel + 2) r e d = .ok ((r', b), d') ∧ RemOK cfg64 r e r' b :=
+  remove_total_correct_u64 g fuel wf e he d
 
 end C01
 
